@@ -30,6 +30,9 @@ type C12Script struct {
 	PeerCode   int    `json:"peerCode"`
 	Cap        int    `json:"cap"` // pipe buffer per direction (bytes)
 	MsgLen     int    `json:"msgLen"`
+	// ReportWaits: the connection error report only returns after every writer has returned
+	// (a SHIP layer whose close path is entered by a writer waits the same way)
+	ReportWaits bool `json:"reportWaits,omitempty"`
 }
 
 type call struct {
@@ -104,6 +107,17 @@ func runC12(sc C12Script) *c12Result {
 	var mu sync.Mutex
 	cond := sync.NewCond(&mu)
 	accepted, finished := 0, 0
+	if sc.ReportWaits {
+		rec.mu.Lock()
+		rec.OnError = func(error) {
+			mu.Lock()
+			for finished < sc.Writers {
+				cond.Wait()
+			}
+			mu.Unlock()
+		}
+		rec.mu.Unlock()
+	}
 	var wg sync.WaitGroup
 	for w := 0; w < sc.Writers; w++ {
 		for s := 0; s < sc.PerWriter; s++ {
@@ -337,6 +351,7 @@ func genC12(t *rapid.T) C12Script {
 	}
 	total := sc.Writers * sc.PerWriter
 	sc.CloseAfter = rapid.IntRange(0, total).Draw(t, "closeAfter")
+	sc.ReportWaits = rapid.IntRange(0, 3).Draw(t, "reportWaits") == 0
 	sc.StallAfter = -1
 	if rapid.Bool().Draw(t, "stall") {
 		sc.StallAfter = rapid.IntRange(0, total).Draw(t, "stallAfter")
